@@ -22,9 +22,13 @@ type triple struct{ tag, addr, cmd string }
 
 // ccHandshake: one real client handshake for (tag, addr, cmd) against a real server; `breakIt` makes
 // the server drop the connection right after reading the client's first message.
-func ccHandshake(cache *security.SessionCache, t triple, validCmds []int, breakIt bool) (neg *security.SecurityNegotiation, resumed bool, err error) {
+func ccHandshake(cache *security.SessionCache, t triple, validCmds []int, breakIt bool, stall bool) (neg *security.SecurityNegotiation, resumed bool, err error) {
 	ca, cb := bufpipe.Pair("10.0.0.1:1111", "10.0.0.2:9618")
-	ctx, cancel := context.WithTimeout(context.Background(), 800*time.Millisecond)
+	d := 800 * time.Millisecond
+	if stall {
+		d = 120 * time.Millisecond
+	}
+	ctx, cancel := context.WithTimeout(context.Background(), d)
 	defer cancel()
 	defer ca.Close()
 	defer cb.Close()
@@ -36,7 +40,11 @@ func ccHandshake(cache *security.SessionCache, t triple, validCmds []int, breakI
 		defer wg.Done()
 		if breakIt {
 			m := message.NewMessageFromStream(sst)
-			_, _ = m.GetInt(ctx)
+			_, _ = m.GetInt(context.Background())
+			if stall {
+				// the peer goes silent: the exchange breaks by the client's own deadline
+				time.Sleep(d + 60*time.Millisecond)
+			}
 			cb.Close()
 			return
 		}
@@ -66,9 +74,9 @@ func ccHandshake(cache *security.SessionCache, t triple, validCmds []int, breakI
 }
 
 func runClientCache(c *Ctx) error {
-	c.Res.Rule = "histories (2-8 steps) of real client handshakes over (tag in {none,T1,T2}) x (server address in {srvA,srvB}) x (command in {60007,60008,60009}) against a real server whose post-auth ValidCommands vary, interleaved with server restart (session forgotten -> SID_NOT_FOUND), broken connections, client-side expiry (virtual time), explicit invalidation and InvalidateExpired; after every step all 18 LookupByCommand routes are compared with the model and with a reference map (tag,addr,cmd) -> session kept by the spec rules; distinct by history; non-trivial = the history touches >=2 distinct triples"
+	c.Res.Rule = "histories (2-8 steps) of real client handshakes over (tag in {none,T1,T2}) x (server address in {srvA, srvB, and two sinful addresses that differ only in their ?sock= decoration}) x (command in {60007,60008,60009}) against a real server whose post-auth ValidCommands vary, interleaved with server restart (session forgotten -> SID_NOT_FOUND), broken connections (peer closes) and stalled ones (peer goes silent, the client's deadline fires), client-side expiry (virtual time), explicit invalidation and InvalidateExpired; after every step all 36 LookupByCommand routes are compared with the model and with a reference map (tag,addr,cmd) -> session kept by the spec rules; distinct by history; non-trivial = the history touches >=2 distinct triples"
 	tags := []string{"", "T1", "T2"}
-	addrs := []string{"srvA", "srvB"}
+	addrs := []string{"srvA", "srvB", "<127.0.0.1:9618?sock=schedd_1>", "<127.0.0.1:9618?sock=startd_2>"}
 	cmds := []string{"60007", "60008", "60009"}
 	var all []triple
 	for _, tg := range tags {
@@ -104,6 +112,10 @@ func runClientCache(c *Ctx) error {
 				seen[t] = true
 				vc := pick(c, [][]int{nil, {60007, 60008}, {60007}, {60008, 60009}})
 				breakIt := c.Rng.Intn(6) == 0
+				stall := breakIt && c.Rng.Intn(2) == 0
+				if stall {
+					c.Count("op:stall")
+				}
 				// what will the server answer if a resumption is attempted?
 				answer := "authorized"
 				if breakIt {
@@ -113,7 +125,7 @@ func runClientCache(c *Ctx) error {
 						answer = "sidNotFound"
 					}
 				}
-				neg, resumed, err := ccHandshake(cache, t, vc, breakIt)
+				neg, resumed, err := ccHandshake(cache, t, vc, breakIt, stall)
 				var r, full string
 				full = "~|none|~|0|-"
 				var sre *security.SessionResumptionError
